@@ -40,9 +40,9 @@ def validCompression (n : Nat) : Bool := n = 0 || n = 1 || n = 2 || n = 4
 def validEncryption (n : Nat) : Bool := n < 3
 def validCipherMode (n : Nat) : Bool := n < 2
 
-/-- `EntryHeader::to_bytes` — note: writes `minor` twice (as the code does). -/
+/-- `EntryHeader::to_bytes` (after the `fix:` that made it write `major`, not `minor` twice) -/
 def encFHED (h : EntryHeader) : Bytes :=
-  [byteOf h.minor, byteOf h.minor, byteOf h.kind, byteOf h.compression,
+  [byteOf h.major, byteOf h.minor, byteOf h.kind, byteOf h.compression,
    byteOf h.encryption, byteOf h.cipherMode] ++ h.name
 
 /-- `EntryHeader::try_from_bytes` -/
